@@ -62,13 +62,18 @@ package interp
 //@   ensures[C20] !issp(name) && !ispos(name) ==> set == has(env.vars, name) && (set ==> v == env.vars[name])
 //@   ensures[C20] !set && !(!issp(name) && !ispos(name)) ==> v.Value == ""
 
+// The store is written, inside the package, only by the assigning forms of
+// parameter expansion and by the assigning actions of the arithmetic grammar:
+// nothing else that Expand or Eval reaches calls Set, and nothing calls Unset.
 //@ func (*ExecEnv).Set
+//@   calledby[C20] interp.(*ExecEnv).expandParam interp.action<* interp.(*yyParserImpl).Parse
 //@   preserves[C20] F.interp.ExecEnv.* Mem.* MapHas.Str.Str MapVal.Str.Str F.ast.*
 //@   ensures[C20] issp(name) || ispos(name) ==> mapview(env.vars) == old(mapview(env.vars)) && mapvals(env.vars) == old(mapvals(env.vars))
 //@   ensures[C20] !(issp(name) || ispos(name)) ==> mapview(env.vars) == store(old(mapview(env.vars)), name, true)
 //@   ensures[C20] !(issp(name) || ispos(name)) ==> mapvals(env.vars) == store(old(mapvals(env.vars)), name, Var(name, value, false, false))
 
 //@ func (*ExecEnv).Unset
+//@   calledby[C20] nobody
 //@   preserves[C20] F.interp.ExecEnv.* Mem.* MapHas.Str.Str MapVal.Str.Str F.ast.*
 //@   ensures[C20] mapview(env.vars) == store(old(mapview(env.vars)), name, false)
 //@   ensures[C20] forall k: true ==> true
